@@ -19,8 +19,15 @@ fn phase(name: &str) {
     unsafe { libc::write(-1, s.as_ptr() as *const libc::c_void, s.len()) };
 }
 
+static OUT: std::sync::OnceLock<String> = std::sync::OnceLock::new();
+
 fn die(msg: String) -> ! {
     eprintln!("c19 child: {msg}");
+    if let Some(o) = OUT.get() {
+        if !o.is_empty() {
+            let _ = std::fs::write(o, format!("error {msg}\n"));
+        }
+    }
     std::process::exit(3);
 }
 
@@ -49,6 +56,7 @@ pub fn main(a: &[String]) -> ! {
     let (root, prefix, scenario) = (&a[0], &a[1], a[2].as_str());
     let pattern: u8 = a[3].parse().unwrap_or(0);
     let out = a.get(5).cloned().unwrap_or_default();
+    let _ = OUT.set(out.clone());
     if scenario == "cleaner_as_global" {
         let toml = std::path::PathBuf::from(format!("{out}.toml"));
         if let Err(e) = write_config_toml(&toml, root, prefix).map_err(|e| e.to_string()).and_then(|_| install_global_config(&toml)) {
@@ -98,10 +106,7 @@ pub fn main(a: &[String]) -> ! {
             let _ = std::io::stdout().flush();
             loop {
                 unsafe { libc::pause() };
-            }
-            #[allow(unreachable_code)]
-            {
-                drop(live);
+                let _ = &live;
             }
         }
         "lifecycle" => {
